@@ -7,21 +7,16 @@ From MiV Require Import Gen.Consts Gen.Bins Model.Arith Model.Page Model.Span Mo
 Import ListNotations.
 Local Open Scope N_scope.
 
-(* (1) PROGRESS OF THE HUGE PATH.  Model/Compose.v turns the assertions of the C code (block_size <= page_size,
+(* PROGRESS is proved: Model/Compose.v turns the assertions of the C code (block_size <= page_size,
    page_size / block_size < 2^16 in mi_page_init; block_size >= size in _mi_malloc_generic; reserved = 1 for a
-   huge page; slice_count fits 32 bits) into dynamic checks: the operation returns None when one fails, and the
-   theorems of Properties/C01compose.v are of the form "if the operation returns Some ...".  That the checks
-   never fail is PROVED for requests up to MI_LARGE_OBJ_SIZE_MAX served from a fresh segment
-   (Proofs/ComposeProgress.v malloc_fresh_seg_progress = C01_compose_malloc_progress).  For a huge block
-   (its own segment) it is not proved, only observed (Examples; the replay rebuilds real huge segments); note
-   that for requests within 4 MiB of MI_MAX_ALLOC_SIZE the rounded size needs 2^32 or more slices, which the
-   model's check `ss < 2^32` (slice_count is a uint32_t) refuses, so the statement needs a smaller bound: *)
-Definition compose_malloc_huge_progress_stmt : Prop :=
-  forall m size base, mem_inv m -> MI_LARGE_OBJ_SIZE_MAX < size -> size < 2^47 ->
-    base_ok m base (fst (fst (fst (segment_request (block_size_of size) 0)))) = true ->
-    exists m' p, mmalloc m size (ChHuge base 0) = Some (m', p).
+   huge page; slice_count fits 32 bits) into dynamic checks (None when one fails), and
+   Proofs/ComposeProgress.v shows that they never fail, both for requests up to MI_LARGE_OBJ_SIZE_MAX served
+   from a fresh segment (malloc_fresh_seg_progress) and for huge blocks below 2^47 bytes in their own segment
+   (malloc_huge_progress).  Not covered: requests between 2^47 and MI_MAX_ALLOC_SIZE (within 4 MiB of
+   MI_MAX_ALLOC_SIZE the rounded size needs 2^32 or more slices, which the model's check `ss < 2^32` --
+   slice_count is a uint32_t -- refuses; no OS maps such a range). *)
 
-(* (2) CONTENTS.  abs maps every live block to unknown bytes (`dirty`): the composite model has no byte
+(* (1) CONTENTS.  abs maps every live block to unknown bytes (`dirty`): the composite model has no byte
    contents, so "a live block keeps the bytes the program wrote" is not a theorem of this layer.  It is a
    consequence of disjointness (C01_compose_live_disjoint: a write through one live block cannot touch
    another) together with "the allocator writes only dead blocks", which is stated per layer
